@@ -42,7 +42,7 @@ func init() {
 			return 96
 		},
 		Run:     runC10,
-		Require: []string{"runs", "ops_before_close", "ops_after_close_failed", "close_raced_with_ops", "method_pairs_overlapped", "fs_mem", "fs_os", "fs_osmmap", "bg_worker_runs", "forced_recoveries", "shared_iterator_calls"},
+		Require: []string{"runs", "ops_before_close", "ops_after_close_failed", "close_raced_with_ops", "method_pairs_overlapped", "fs_mem", "fs_os", "fs_osmmap", "bg_worker_runs", "forced_recoveries", "shared_iterator_calls", "runs_started_by_recovery_with_bg_worker", "puts_of_256KiB_values"},
 		PostChild: func(p *core.Parent, shard int, logPath string) {
 			seen := map[string]int{}
 			first := map[string]core.RaceReport{}
@@ -100,6 +100,7 @@ func runC10(c *core.Ctx) {
 	seed := rng.Uint32()
 	core.PinSeed(seed)
 	fsk := []core.FSKind{core.FSMem, core.FSOS, core.FSOSMMap}[c.Case%3]
+	var preState core.State
 	c.Stat("fs_"+string(fsk), 1)
 	c.Stat("runs", 1)
 	c.Eval(1)
@@ -115,11 +116,56 @@ func runC10(c *core.Ctx) {
 		cfg.BgSync = 0
 	}
 	env := core.NewEnv(fsk)
-	defer env.Cleanup()
-	db, err := env.Open(cfg)
+	defer func() { env.Cleanup() }()
+	cfg0 := cfg
+	if c.Case%4 == 2 {
+		cfg0.BgSync, cfg0.BgCompact = 0, 0 // the pre-fill session runs without the background worker
+	}
+	db, err := env.Open(cfg0)
 	if err != nil {
 		c.Violation("open-error", err.Error(), nil)
 		return
+	}
+	if c.Case%4 == 2 {
+		// this run starts with a RECOVERY while the background worker is configured: fill, copy the directory while open
+		// (unclean image), recover the copy with the 1 ms background compaction/sync enabled, and run the stress there
+		for i := 0; i < 600; i++ {
+			k := []byte(fmt.Sprintf("pre-%d", i%90))
+			if err := db.Put(k, []byte(fmt.Sprintf("pre-value-%d-%s", i, strings.Repeat("y", i%70)))); err != nil {
+				c.Violation("put-error", err.Error(), nil)
+				return
+			}
+		}
+		nenv := core.NewEnv(fsk)
+		if err := env.CopyDirTo(nenv); err != nil {
+			db.Close()
+			nenv.Cleanup()
+			c.Violation("setup-error", err.Error(), nil)
+			return
+		}
+		pre, derr := core.Dump(db, nil)
+		db.Close()
+		env.Cleanup()
+		env = nenv
+		rcfg := cfg
+		rcfg.SyncWrites = false
+		rcfg.BgSync = time.Millisecond
+		rcfg.BgCompact = time.Millisecond
+		db, err = env.Open(rcfg)
+		if err != nil {
+			c.Violation("recover-error", fmt.Sprintf("recovering Open with the background worker configured failed: %v (fs %s)", err, fsk), map[string]interface{}{"hash_seed": seed, "fs": fsk})
+			return
+		}
+		if st, err := core.Dump(db, nil); derr == nil && (err != nil || !st.Equal(pre)) {
+			db.Close()
+			c.Violation("contents-after-recovery-with-bg-worker", fmt.Sprintf("contents after a recovery with background compaction configured differ: %v %s (fs %s)", err, st.Diff(pre, 3), fsk), map[string]interface{}{"hash_seed": seed, "fs": fsk})
+			return
+		}
+		bg = true
+		c.Stat("runs_started_by_recovery_with_bg_worker", 1)
+		// the pre-filled keys stay untouched by the workers and must survive
+		defer func() { _ = pre }()
+		preState = pre
 	}
 	nworkers := 6 + rng.Intn(11)
 	closeAt := int64(100 + rng.Intn(1500))
@@ -134,6 +180,7 @@ func runC10(c *core.Ctx) {
 	report := func(sig, detail string) {
 		violated.CompareAndSwap(nil, [2]string{sig, detail})
 	}
+	var slowYields atomic.Int64
 	hookRng := newRand(int64(seed))
 	var hookMu sync.Mutex
 	core.SetYield(func(d *pogreb.DB, point string) {
@@ -143,6 +190,12 @@ func runC10(c *core.Ctx) {
 		hookMu.Lock()
 		us := hookRng.Intn(100)
 		hookMu.Unlock()
+		if closeCalled.Load() && !closed.Load() && slowYields.Add(1) < 150 {
+			// a maintenance task in flight while Close is running is kept in flight: Close has to wait for the
+			// background worker, and whatever Close does not wait for is still running when it returns
+			time.Sleep(2 * time.Millisecond)
+			return
+		}
 		if us > 50 {
 			time.Sleep(time.Duration(us) * time.Microsecond)
 		}
@@ -158,7 +211,7 @@ func runC10(c *core.Ctx) {
 	states := make([]*wstate, nworkers)
 	var progress []atomic.Int64 = make([]atomic.Int64, nworkers)
 	var wg sync.WaitGroup
-	var afterCloseFailed, afterCloseOps, beforeCloseOps, sharedCalls atomic.Int64
+	var afterCloseFailed, afterCloseOps, beforeCloseOps, sharedCalls, bigPuts atomic.Int64
 	closeDone := make(chan struct{})
 	var closeErr error
 	var closeT0, closeT1 int64
@@ -189,10 +242,19 @@ func runC10(c *core.Ctx) {
 			}()
 			var it *pogreb.ItemIterator
 			post := int64(0)
+			racing := 0
+			myBig := 0
 			for i := 0; ; i++ {
 				n := opCount.Add(1)
 				if n == closeAt {
 					fireClose()
+				}
+				if closeCalled.Load() && !closed.Load() {
+					// Close is in progress: a bounded number of further calls race with it, then the worker waits for it
+					racing++
+					if racing > 200 {
+						<-closeDone
+					}
 				}
 				wasClosed := closed.Load() // Close had RETURNED before this call started
 				if wasClosed {
@@ -205,6 +267,12 @@ func runC10(c *core.Ctx) {
 				}
 				progress[w].Add(1)
 				key := []byte(fmt.Sprintf("w%d-k%d", w, r.Intn(12)))
+				// on the memory-mapped file system one key per run carries a value of 256 KiB (copying it out takes a while);
+				// it is written twice and otherwise read
+				bigKey := fsk == core.FSOSMMap && w == 0 && r.Intn(6) == 0 && (myBig < 2 || r.Intn(3) > 0)
+				if bigKey {
+					key = []byte(fmt.Sprintf("w%d-big", w))
+				}
 				var m string
 				var err error
 				isWrite := false
@@ -214,6 +282,18 @@ func runC10(c *core.Ctx) {
 					m = "Put"
 					isWrite = true
 					v := fmt.Sprintf("v-%d-%d-%s", w, i, strings.Repeat("x", r.Intn(80)))
+					if bigKey {
+						if myBig < 2 {
+							myBig++
+							v = fmt.Sprintf("v-%d-%d-%s", w, i, strings.Repeat("B", 256<<10))
+							bigPuts.Add(1)
+						} else {
+							m = "Get"
+							isWrite = false
+							_, err = db.Get(key) // the big value is mostly read
+							break
+						}
+					}
 					err = db.Put(key, []byte(v))
 					if err == nil {
 						st.expect[string(key)] = v
@@ -369,11 +449,22 @@ func runC10(c *core.Ctx) {
 		}
 		return
 	}
+	// right after Close returned and every caller joined: no goroutine of the database may still be doing maintenance
+	time.Sleep(20 * time.Millisecond)
+	for _, g := range libraryGoroutines() {
+		if strings.Contains(g, "pogreb.(*DB).Compact") || strings.Contains(g, "pogreb.(*DB).compact") || strings.Contains(g, "pogreb.(*DB).Sync") || strings.Contains(g, "startBackgroundWorker") {
+			c.Violation("goroutine-left-running", fmt.Sprintf("a goroutine started by the database is still running maintenance 20 ms after Close returned and all callers joined (fs %s, bg worker %v)", fsk, bg),
+				map[string]interface{}{"stack": g})
+			core.SetYield(nil)
+			return
+		}
+	}
 	core.SetYield(nil)
 	c.Stat("ops_before_close", beforeCloseOps.Load())
 	c.Stat("ops_after_close", afterCloseOps.Load())
 	c.Stat("ops_after_close_failed", afterCloseFailed.Load())
 	c.Stat("shared_iterator_calls", sharedCalls.Load())
+	c.Stat("puts_of_256KiB_values", bigPuts.Load())
 	if v := violated.Load(); v != nil {
 		p := v.([2]string)
 		c.Violation(p[0], p[1]+fmt.Sprintf(" (fs %s)", fsk), map[string]interface{}{"hash_seed": seed, "fs": fsk, "config": cfg})
@@ -423,6 +514,9 @@ func runC10(c *core.Ctx) {
 	}
 	// contents = exactly the effects of the calls that returned nil
 	want := core.State{}
+	for k, v := range preState {
+		want[k] = v
+	}
 	alt := map[string][]string{}
 	for _, st := range states {
 		for k, v := range st.expect {
